@@ -912,4 +912,123 @@ theorem tstep_results_scripted (h : tstep cfg tid sh th = some (sh', th')) (hr :
        simp [progOK, lastOK, recvOK, contOK, -Bool.forall_bool, -Bool.exists_bool] at hr hk hp hl hprog
        simp [Scripted, -Bool.forall_bool, -Bool.exists_bool] <;> grind [Op.kind, Cont.last])
 
+/-! ## Few disciplined threads never find the queue full (any `block`, with `close`) -/
+
+/-- like `disc`, but `close` ops are allowed (they do not touch the thread's leases) -/
+def disc2 : Bool → List Op → Bool
+  | held, [] => !held
+  | held, .req _ _ st :: rest => !held && disc2 st rest
+  | _, .release :: rest => disc2 false rest
+  | held, .close :: rest => disc2 held rest
+
+theorem disc2_mono {p : List Op} (h : disc2 true p = true) : disc2 false p = true := by
+  induction p with
+  | nil => simp [disc2] at h
+  | cons op rest ih => cases op <;> simp_all [disc2]
+
+theorem disc2_false_of {b : Bool} {p : List Op} (h : disc2 b p = true) : disc2 false p = true := by
+  cases b
+  · exact h
+  · exact disc2_mono h
+
+/-- slots a program counter holds, not counting an item taken by `close`'s drain loop (which is
+never put back) -/
+def Pc.slots2 : Pc → Nat
+  | .send .. | .recv .. => 1
+  | .putCheck .. | .putLoad .. | .putQ .. | .fullClose .. | .warnLoad .. | .discard .. => 1
+  | _ => 0
+
+@[simp] theorem Pc.slots2_idle : Pc.idle.slots2 = 0 := rfl
+@[simp] theorem Pc.slots2_getCheck {f l s} : (Pc.getCheck f l s).slots2 = 0 := rfl
+@[simp] theorem Pc.slots2_getLoad {f l s} : (Pc.getLoad f l s).slots2 = 0 := rfl
+@[simp] theorem Pc.slots2_getQ {f l s} : (Pc.getQ f l s).slots2 = 0 := rfl
+@[simp] theorem Pc.slots2_send {c f l s} : (Pc.send c f l s).slots2 = 1 := rfl
+@[simp] theorem Pc.slots2_recv {c t f l s} : (Pc.recv c t f l s).slots2 = 1 := rfl
+@[simp] theorem Pc.slots2_putCheck {i k} : (Pc.putCheck i k).slots2 = 1 := rfl
+@[simp] theorem Pc.slots2_putLoad {i k} : (Pc.putLoad i k).slots2 = 1 := rfl
+@[simp] theorem Pc.slots2_putQ {i k} : (Pc.putQ i k).slots2 = 1 := rfl
+@[simp] theorem Pc.slots2_fullClose {i k} : (Pc.fullClose i k).slots2 = 1 := rfl
+@[simp] theorem Pc.slots2_warnLoad {i k} : (Pc.warnLoad i k).slots2 = 1 := rfl
+@[simp] theorem Pc.slots2_discard {i k} : (Pc.discard i k).slots2 = 1 := rfl
+@[simp] theorem Pc.slots2_closeCheck : Pc.closeCheck.slots2 = 0 := rfl
+@[simp] theorem Pc.slots2_closeSwap : Pc.closeSwap.slots2 = 0 := rfl
+@[simp] theorem Pc.slots2_drain : Pc.drain.slots2 = 0 := rfl
+@[simp] theorem Pc.slots2_drainClose {x} : (Pc.drainClose x).slots2 = 0 := rfl
+@[simp] theorem applyCont_pc_slots2 (th : Thread) (k : Cont) : (applyCont th k).pc.slots2 = 0 := by
+  cases k <;> simp [applyCont]
+
+def Thread.slots2 (th : Thread) : Nat := th.pc.slots2 + th.resp.toList.length + th.leaked.length
+
+@[simp] theorem Cont.kind_ne_two (k : Cont) : k.kind ≠ 2 := by cases k <;> simp
+
+/-- the per-thread discipline invariant, `close` allowed -/
+def Disc2 (th : Thread) : Prop :=
+  th.leaked = [] ∧
+  (th.pc = .idle → disc2 th.resp.isSome th.prog = true) ∧
+  (th.pc ≠ .idle → ∃ op rest, th.prog = op :: rest ∧
+    if th.pc.kind = some 2 then disc2 th.resp.isSome rest = true
+    else th.resp = none ∧ disc2 th.pc.stream rest = true)
+
+theorem finish_disc2_iff {prog pc resp leaked results sent} {r : Res} {op : Op} :
+    Disc2 (finish ⟨op :: prog, pc, resp, leaked, results, sent⟩ r) ↔
+      leaked = [] ∧ disc2 resp.isSome prog = true := by
+  simp [finish, Disc2]
+
+theorem disc2_mk_iff {prog pc resp leaked results sent} {op : Op} (hpc : pc ≠ .idle) :
+    Disc2 ⟨op :: prog, pc, resp, leaked, results, sent⟩ ↔
+      leaked = [] ∧ if pc.kind = some 2 then disc2 resp.isSome prog = true
+        else resp = none ∧ disc2 pc.stream prog = true := by
+  simp only [Disc2]
+  constructor
+  · rintro ⟨h1, -, h3⟩
+    obtain ⟨op', rest', he, hd⟩ := h3 hpc
+    cases he
+    exact ⟨h1, hd⟩
+  · rintro ⟨h1, h2⟩
+    exact ⟨h1, fun h => absurd h hpc, fun _ => ⟨op, prog, rfl, h2⟩⟩
+
+theorem applyCont_disc2_iff {prog pc leaked results sent} {k : Cont} {op : Op} :
+    Disc2 (applyCont ⟨op :: prog, pc, none, leaked, results, sent⟩ k) ↔
+      leaked = [] ∧ disc2 k.stream prog = true := by
+  cases k with
+  | fin r => simp [applyCont, finish_disc2_iff]
+  | rel => simp [applyCont, finish_disc2_iff]
+  | retry f l st => simp [applyCont, disc2_mk_iff]
+
+theorem tstep_disc2 (h : tstep cfg tid sh th = some (sh', th'))
+    (hf : ∀ i k, th.pc ≠ .fullClose i k ∧ th.pc ≠ .warnLoad i k) (hd : Disc2 th) : Disc2 th' := by
+  obtain ⟨hl, hidle, hrun⟩ := hd
+  tstep_cases th h <;> simp at hl hidle hrun hf ⊢ <;>
+    (try obtain ⟨op, rest, rfl, hd'⟩ := hrun) <;>
+    (try simp only [disc2, Bool.and_eq_true, Bool.not_eq_true', Option.isSome_eq_false_iff,
+      Option.isNone_iff_eq_none] at hidle) <;>
+    simp_all [finish_disc2_iff, applyCont_disc2_iff, disc2_mk_iff] <;>
+    first
+    | exact disc2_false_of ‹_›
+    | exact disc2_false_of hd'.2
+    | exact disc2_false_of hidle.2
+    | skip
+
+theorem Disc2.slots2_le {th : Thread} (hd : Disc2 th) : th.slots2 ≤ 1 := by
+  rcases th with ⟨prog, pc, resp, leaked, results, sent⟩
+  obtain ⟨hl, -, hrun⟩ := hd
+  simp at hl hrun
+  subst hl
+  cases pc <;> simp [Thread.slots2] <;> (try cases resp <;> simp) <;>
+    simp at hrun
+
+theorem Disc2.slots2_getQ {th : Thread} (hd : Disc2 th) {f l st} (h : th.pc = .getQ f l st) :
+    th.slots2 = 0 := by
+  obtain ⟨hl, -, hrun⟩ := hd
+  obtain ⟨op, rest, -, h2⟩ := hrun (by simp [h])
+  simp [h] at h2
+  simp [Thread.slots2, hl, h2.1, h]
+
+/-- a step does not increase `qsize + slots2`, except the `get()` of a `block=False` pool on the
+empty queue, which creates a connection -/
+theorem tstep_slots2 (h : tstep cfg tid sh th = some (sh', th')) :
+    sh'.queue.length + th'.slots2 ≤ sh.queue.length + th.slots2 ∨
+      ((∃ f l st, th.pc = .getQ f l st) ∧ sh'.queue = []) := by
+  tstep_cases th h <;> simp_all [Thread.slots2, failPut_resp] <;> grind
+
 end U3.PoolConc
